@@ -120,5 +120,36 @@ Proof.
       destruct lastc; [contradiction|]. cbn in Hn. discriminate.
 Qed.
 End ARENA.
+
+(* urcu_bp_prune_registry (child side of fork): every allocated slot except the forking thread's own is released *)
+Fixpoint prune_chunk (c : chunk) (keep : option nat) (j : nat) : chunk :=
+  match c with [] => [] | b :: c' => (if match keep with Some k => Nat.eqb k j | None => false end then b else false) :: prune_chunk c' keep (S j) end.
+Fixpoint prune_from (a : arena) (mi mj : nat) (i : nat) : arena :=
+  match a with [] => [] | c :: a' => prune_chunk c (if Nat.eqb i mi then Some mj else None) 0 :: prune_from a' mi mj (S i) end.
+Definition prune (a : arena) (mi mj : nat) : arena := prune_from a mi mj 0.
+
+Lemma prune_chunk_nth c keep : forall j0 j, nth j (prune_chunk c keep j0) false = if match keep with Some k => Nat.eqb k (j0 + j) | None => false end then nth j c false else false.
+Proof.
+  induction c as [|b c IH]; intros j0 j; cbn [prune_chunk]; [destruct j, keep as [k|]; cbn; try destruct (Nat.eqb k _); reflexivity|].
+  destruct j; cbn [nth].
+  - rewrite Nat.add_0_r. reflexivity.
+  - rewrite IH. replace (S j0 + j) with (j0 + S j) by lia. reflexivity.
+Qed.
+Lemma prune_chunk_length c keep j0 : length (prune_chunk c keep j0) = length c.
+Proof. revert j0. induction c as [|b c IH]; intros j0; cbn; [reflexivity|rewrite IH; reflexivity]. Qed.
+Lemma prune_from_nth a mi mj : forall i0 i, nth i (prune_from a mi mj i0) [] = prune_chunk (nth i a []) (if Nat.eqb (i0 + i) mi then Some mj else None) 0.
+Proof.
+  induction a as [|c a IH]; intros i0 i; cbn [prune_from]; [destruct i; reflexivity|].
+  destruct i; cbn [nth]; [rewrite Nat.add_0_r; reflexivity|]. rewrite IH. replace (S i0 + i) with (i0 + S i) by lia. reflexivity.
+Qed.
+(* after the prune exactly the forking thread's slot keeps its state; every other slot is free; chunks keep their capacity (nothing moves) *)
+Theorem prune_spec a mi mj i j :
+  get (prune a mi mj) i j = (if Nat.eqb i mi && Nat.eqb j mj then get a i j else false) /\ length (nth i (prune a mi mj) []) = length (nth i a []).
+Proof.
+  unfold get, prune. rewrite prune_from_nth. cbn [Nat.add]. split; [|apply prune_chunk_length].
+  rewrite prune_chunk_nth. cbn [Nat.add]. destruct (Nat.eqb_spec i mi) as [->|Hi]; cbn [andb]; [|reflexivity].
+  rewrite (Nat.eqb_sym mj j). reflexivity.
+Qed.
 Print Assumptions alloc_first_fit.
 Print Assumptions alloc_never_null.
+Print Assumptions prune_spec.
